@@ -56,7 +56,8 @@ func (vfs *MemFS) Base(path string) string {
 func (vfs *MemFS) Chdir(dir string) error {
 	const op = "chdir"
 
-	_, child, pi, err := vfs.searchNode(dir, slmLstat)
+	// a symbolic link to a directory is followed.
+	_, child, pi, err := vfs.searchNode(dir, slmEval)
 	if err != vfs.err.FileExists {
 		return &fs.PathError{Op: op, Path: dir, Err: err}
 	}
